@@ -225,6 +225,10 @@ def check(ctx) -> None:
     # ---------------------------------------------------------------- U3
     app = muts[0]
     rec = app.args[0] if isinstance(app, ast.Call) and app.args else None
+    if isinstance(rec, ast.Name):
+        rdefs = assignments_to(add, rec.id)
+        if len(rdefs) == 1 and rdefs[0][2] is None:
+            rec = rdefs[0][1]
     ok3 = False
     detail = ""
     if isinstance(rec, ast.Dict):
